@@ -176,12 +176,15 @@ def _exec(job: dict, fresh: bool = False) -> dict:
                 else [x[0] for x in f["events"]] == ["opened", "data", "data"])
         return r
 
-    res, hung = W.with_watchdog(body, 40.0 if fresh else 8.0)
+    res, hung = W.with_watchdog(body, 40.0 if fresh else 8.0, server_thread=None if http else w.th)
+    server_died = (not http) and bool(w.died)
     truth = [t for t in W.TRUTH_ALL if t["type"]]
     srv = truth[-1] if truth else None
     o = {"nerr": 0, "nother": 0, "hung": hung, "etype": "", "srvtype": srv["type"] if srv else "", "msg_ok": False,
          "kind": "", "done": False, "http": [], "follow": "none"}
     info: dict = {"events": None, "srv_kind": srv["kind"] if srv else None}
+    if server_died:
+        info["serve_loop_ended_with"] = list(w.died)
     if hung:
         if not http:
             w.reopen()
@@ -233,8 +236,12 @@ def _warm() -> None:
     import logging
     import warnings
 
+    import os
+    import sys
+
     warnings.filterwarnings("ignore")
     logging.disable(logging.CRITICAL)
+    sys.stderr = open(os.devnull, "w")      # falcon prints the traceback of every unhandled responder exception
     from drivers import _wire3_world  # noqa: F401
     import vgi_rpc.http  # noqa: F401
     from vgi_rpc.http import _testing  # noqa: F401
@@ -249,7 +256,9 @@ def work(jobs: list[dict]) -> list[dict]:
     out = []
     for job in jobs:
         r = _exec(job)
-        if r["obs"]["hung"] or (not job["case"]["tr"].startswith("http") and _suspicious(job["case"], r["obs"])):
+        if r["info"].get("serve_loop_ended_with"):
+            _WORLDS.pop(job["case"]["tr"], None)       # that connection is gone; the observation stands (no retry needed)
+        elif r["obs"]["hung"] or (not job["case"]["tr"].startswith("http") and _suspicious(job["case"], r["obs"])):
             # a verdict must not depend on what an earlier call left on the connection (that is C04's subject),
             # nor on a slow machine: anything odd is repeated on a fresh connection with a generous watchdog
             r2 = _exec(job, fresh=True)
